@@ -34,7 +34,7 @@ type c19Exchange struct {
 	// exchange lasts longer than dial timeout + response-header timeout
 	SlowBody bool `json:"slow_body,omitempty"`
 	Upload   int  `json:"upload_bytes,omitempty"`
-	Expect bool `json:"expect_100_continue,omitempty"`
+	Expect   bool `json:"expect_100_continue,omitempty"`
 }
 
 type c19Scenario struct {
